@@ -164,7 +164,7 @@ theorem propertyValue_unw_mp {u u' : GoVal} (hu : Unw u) (hu' : Unw u') (h : MP 
       · split <;> exact LRelM.refl _
       · cases v <;> simp [rigidM] at r1 <;> cases v' <;> simp [rigidM] at r2 <;> simpa [LRelM] using this
     · simpa [LRelM] using this
-  | keyedMap hf =>
+  | keyedMap _ hf =>
     simp only
     have := lookupFields_mpf hf name
     cases h1 : lookupFields _ name <;> cases h2 : lookupFields _ name <;> rw [h1, h2] at this <;> simp only [OptMP] at this
@@ -218,7 +218,7 @@ theorem indexValue_recv_mp {u u' : GoVal} (hu : Unw u) (hu' : Unw u') (h : MP u 
       · exact LRelM.refl _
       · next k _ => exact (mapFind_mp (MP.mapVals kt vt hv hn hm) k).2.2.2.getD
   | mapSlice hm => exact mapSliceFind_mpv hm _
-  | keyedMap hf =>
+  | keyedMap _ hf =>
     simp only
     split
     · exact (lookupFields_mpf hf _).getD
@@ -405,7 +405,7 @@ theorem loopItems_mp_cases {v v' : GoVal} (h : MP v v') :
     · rw [h1, h2]; exact .inl ⟨_, _, rfl, rfl, mkPairs_mpl hs⟩
     · rw [h1, h2]; exact .inr ⟨rfl, by simp⟩
   | mapSlice hm => exact .inl ⟨_, _, rfl, rfl, mkPairs_mpl hm⟩
-  | keyedMap hf =>
+  | keyedMap _ hf =>
     refine .inl ⟨_, _, rfl, rfl, ?_⟩
     have := sortedFields_names hf.names_eq
     have e : ∀ l : List (Bytes × GoVal), l.map (fun kv => GoVal.str kv.1) = (l.map (·.1)).map GoVal.str := by
